@@ -63,7 +63,10 @@ Step(e) ==
          /\ Skip
     [] e.ev = "peerclosed" -> PeerClosed
     [] e.ev = "reply" -> Reply(e)
-    [] e.ev = "replyrest" ->    \* the rest of a stalled response arrives
+    [] e.ev = "replyhdr" ->     \* a response delivered in pieces: size and correlation id have arrived
+         /\ deliv' = [k \in DOMAIN deliv |-> IF stream[k].op = e.id /\ deliv[k] = "none" THEN "hdr" ELSE deliv[k]]
+         /\ UNCHANGED <<op, corr, inflight, rlock, closed, reqs, stream, rpos, mis, faults, peerClosed>>
+    [] e.ev = "replyrest" ->    \* the rest of a stalled (or fragmented) response arrives
          /\ deliv' = [k \in DOMAIN deliv |-> IF stream[k].op = e.id THEN "full" ELSE deliv[k]]
          /\ UNCHANGED <<op, corr, inflight, rlock, closed, reqs, stream, rpos, mis, faults, peerClosed>>
     [] e.ev = "take" -> M!PeekOK(e.id) /\ op'[e.id].pc = "own"
